@@ -181,12 +181,15 @@ def Codec.array (c : Codec) (n : Nat) : Codec where
     else bindO (decChunks c n (buf.take (c.len * n))) fun vs => .ok (.seq vs)
   valid := fun v => ∃ vs, v = .seq vs ∧ vs.length = n ∧ ∀ x ∈ vs, c.valid x
 
-/-- Tuple read: `let T = T::unpack_from_slice(buf)?; if buf.len() > 0 { buf = &buf[T::PACKED_LEN..]; }` per component. -/
+/-- Tuple read, per component: `let T = T::unpack_from_slice(buf)?;
+    if buf.len() > 0 { buf = buf.get(T::PACKED_LEN..).ok_or(WireError::ReadBufferTooShort)?; }`
+    (before fix-c19-tuple-short the slice was `&buf[T::PACKED_LEN..]`, which panicked behind a component that had decoded
+    successfully from fewer than PACKED_LEN bytes: `heapless::Vec`, `heapless::String`). -/
 def decTuple : List Codec → List Nat → Out (List Val)
   | [], _ => .ok []
   | c :: cs, buf =>
     bindO (c.dec buf) fun v =>
-      if buf.length > 0 ∧ c.len > buf.length then .panic "slice start out of range"
+      if buf.length > 0 ∧ c.len > buf.length then .err .readBufferTooShort
       else
         let buf' := if buf.length > 0 then buf.drop c.len else buf
         bindO (decTuple cs buf') fun vs => .ok (v :: vs)
